@@ -8,6 +8,7 @@ package main
 // unchanged apart from the documented additions.
 
 import (
+	"net/url"
 	"bytes"
 	"bufio"
 	"crypto/sha256"
@@ -84,6 +85,18 @@ func (b *rawBackend) serve(c net.Conn) {
 	b.mu.Lock()
 	interim, status, body, rh := b.interim, b.status, b.body, b.hdrs
 	b.mu.Unlock()
+	if f := strings.Fields(line); len(f) >= 2 && strings.HasPrefix(f[1], "/die/") {
+		// an upstream that dies after its headers and part of a chunked body (no terminating chunk)
+		c.Write([]byte("HTTP/1.1 200 OK\r\nContent-Type: text/plain\r\nTransfer-Encoding: chunked\r\n\r\n"))
+		for i := 0; i < 3; i++ {
+			c.Write([]byte("10\r\n0123456789abcdef\r\n"))
+		}
+		time.Sleep(20 * time.Millisecond)
+		if tc, ok := c.(*net.TCPConn); ok {
+			tc.SetLinger(0)
+		}
+		return
+	}
 	if f := strings.Fields(line); len(f) >= 2 && strings.HasPrefix(f[1], "/big/") {
 		// a large body derived from the request path, written in many small chunks (concurrent relays overlap)
 		big := relayBigBody(f[1])
@@ -140,7 +153,8 @@ func init() {
 		be := newRawBackend()
 		defer be.ln.Close()
 		u := defaultUser()
-		cfg := proxyCfg{InjectRequest: defaultInject(), Upstreams: []options.Upstream{{ID: "raw", Path: "/", URI: "http://" + be.ln.Addr().String()}}}
+		cfg := proxyCfg{InjectRequest: defaultInject(), Upstreams: []options.Upstream{{ID: "raw", Path: "/", URI: "http://" + be.ln.Addr().String()},
+			{ID: "api", Path: "/api/", URI: "http://" + be.ln.Addr().String() + "/api/"}}}
 		e, err := newEnv(c, cfg)
 		if err != nil {
 			c.violation("HARNESS", "env: "+err.Error(), nil)
@@ -290,6 +304,44 @@ func init() {
 				}
 			}
 		}
+		// an upstream that dies in the middle of a body of unknown length: the client must SEE that the response is incomplete
+		// (aborted connection / read error) — never a cleanly terminated, shorter body
+		{
+			req, _ := http.NewRequest("GET", front.URL+"/die/1", nil)
+			req.Header.Set("Cookie", ck)
+			cl := &http.Client{Transport: &http.Transport{DisableKeepAlives: true}, Timeout: 10 * time.Second}
+			resp, err := cl.Do(req)
+			c.count("relay:upstream-dies-mid-body")
+			if err == nil {
+				rb, rerr := io.ReadAll(resp.Body)
+				resp.Body.Close()
+				c.casen("relay|upstream-dies", fmt.Sprintf("%d bytes, err=%v", len(rb), rerr))
+				if rerr == nil {
+					c.violation("C17", "an upstream response cut off in the middle of its body was relayed to the client as a complete response",
+						map[string]interface{}{"status": resp.StatusCode, "bytes_received": len(rb), "upstream": "200, Transfer-Encoding: chunked, three chunks, connection reset without the terminating chunk"})
+				}
+			}
+		}
+		// protocol upgrade (WebSocket handshake) to an upstream whose configured URI carries a path: the request target is delivered unchanged
+		{
+			fu, _ := url.Parse(front.URL)
+			if conn, err := net.DialTimeout("tcp", fu.Host, 5*time.Second); err == nil {
+				fmt.Fprintf(conn, "GET /api/socket?x=1 HTTP/1.1\r\nHost: %s\r\nConnection: Upgrade\r\nUpgrade: websocket\r\nSec-WebSocket-Version: 13\r\nSec-WebSocket-Key: dGhlIHNhbXBsZSBub25jZQ==\r\nCookie: %s\r\n\r\n", fu.Host, ck)
+				conn.SetReadDeadline(time.Now().Add(3 * time.Second))
+				buf := make([]byte, 512)
+				conn.Read(buf)
+				conn.Close()
+				be.mu.Lock()
+				gotLine := be.last.line
+				be.mu.Unlock()
+				c.count("relay:upgrade")
+				c.casen("relay|upgrade", gotLine)
+				if gotLine != "GET /api/socket?x=1 HTTP/1.1" {
+					c.violation("C17", "a protocol-upgrade request was not delivered to the upstream with its request target unchanged",
+						map[string]interface{}{"sent": "GET /api/socket?x=1 (Connection: Upgrade, Upgrade: websocket)", "upstream_saw": gotLine, "upstream_uri": "http://<backend>/api/"})
+				}
+			}
+		}
 		// concurrent relays of large bodies from the same upstream: every client gets exactly its own body
 		{
 			workers, rounds := 8, 3*c.scale
@@ -338,6 +390,6 @@ func init() {
 			}
 		}
 		e.close()
-		c.close([]string{"relay:case", "relay:with-interim", "relay:prefix-lookalike", "relay:repeated-headers", "relay:concurrent-body"})
+		c.close([]string{"relay:case", "relay:with-interim", "relay:prefix-lookalike", "relay:repeated-headers", "relay:concurrent-body", "relay:upstream-dies-mid-body", "relay:upgrade"})
 	})
 }
